@@ -1,1 +1,202 @@
-// placeholder
+//! Foreign IR: the facts every language parser recovers from generated code.
+use crate::lex::{Comment, Lexed};
+use serde_json::{json, Value};
+use std::collections::BTreeSet;
+
+#[derive(Clone, Debug, PartialEq)]
+pub enum TypeExpr {
+    /// possibly dotted name with generic arguments
+    Name(String, Vec<TypeExpr>),
+    Seq(Box<TypeExpr>),
+    FixedSeq(Box<TypeExpr>, usize),
+    Map(Box<TypeExpr>, Box<TypeExpr>),
+    Nullable(Box<TypeExpr>),
+    Union(Vec<TypeExpr>),
+    /// TypeScript inline object type
+    Object(Vec<Field>),
+    /// string-literal type (TypeScript) / Literal[...] (Python)
+    Lit(String),
+    Tuple(Vec<TypeExpr>),
+    /// something balanced we do not model (Go `interface{}`, Python `Annotated[...]` wrappers are unwrapped before)
+    Other(String),
+}
+
+impl TypeExpr {
+    pub fn name(n: &str) -> Self {
+        TypeExpr::Name(n.to_string(), vec![])
+    }
+    pub fn show(&self) -> String {
+        match self {
+            TypeExpr::Name(n, a) if a.is_empty() => n.clone(),
+            TypeExpr::Name(n, a) => format!("{n}<{}>", a.iter().map(|x| x.show()).collect::<Vec<_>>().join(", ")),
+            TypeExpr::Seq(t) => format!("Seq({})", t.show()),
+            TypeExpr::FixedSeq(t, n) => format!("FixedSeq({}; {n})", t.show()),
+            TypeExpr::Map(k, v) => format!("Map({}, {})", k.show(), v.show()),
+            TypeExpr::Nullable(t) => format!("Nullable({})", t.show()),
+            TypeExpr::Union(v) => format!("Union({})", v.iter().map(|x| x.show()).collect::<Vec<_>>().join(" | ")),
+            TypeExpr::Object(f) => format!("Object{{{}}}", f.iter().map(|x| format!("{}: {}", x.wire_key, x.ty.show())).collect::<Vec<_>>().join(", ")),
+            TypeExpr::Lit(s) => format!("{s:?}"),
+            TypeExpr::Tuple(v) => format!("Tuple({})", v.iter().map(|x| x.show()).collect::<Vec<_>>().join(", ")),
+            TypeExpr::Other(s) => format!("Other({s})"),
+        }
+    }
+    /// every Name occurring in the expression (depth first, left to right)
+    pub fn names<'a>(&'a self, out: &mut Vec<&'a str>) {
+        match self {
+            TypeExpr::Name(n, a) => {
+                out.push(n);
+                for x in a {
+                    x.names(out);
+                }
+            }
+            TypeExpr::Seq(t) | TypeExpr::FixedSeq(t, _) | TypeExpr::Nullable(t) => t.names(out),
+            TypeExpr::Map(k, v) => {
+                k.names(out);
+                v.names(out);
+            }
+            TypeExpr::Union(v) | TypeExpr::Tuple(v) => {
+                for x in v {
+                    x.names(out);
+                }
+            }
+            TypeExpr::Object(f) => {
+                for x in f {
+                    x.ty.names(out);
+                }
+            }
+            TypeExpr::Lit(_) | TypeExpr::Other(_) => {}
+        }
+    }
+}
+
+#[derive(Clone, Debug, PartialEq)]
+pub struct Field {
+    /// identifier as written in the target language (backticks removed)
+    pub ident: String,
+    /// JSON key this field is bound to, by the language's binding rule
+    pub wire_key: String,
+    pub ty: TypeExpr,
+    /// optional markers seen: "?", "|null", "|undefined", "=null", "=None", "=_", "ptr", "omitempty", "Optional", "default=None"
+    pub markers: BTreeSet<String>,
+    pub readonly: bool,
+    pub start: usize,
+}
+
+#[derive(Clone, Debug, PartialEq)]
+pub enum Payload {
+    None,
+    Newtype(TypeExpr),
+    Struct(Vec<Field>),
+}
+
+#[derive(Clone, Debug)]
+pub struct Variant {
+    pub ident: String,
+    pub wire_name: Option<String>,
+    pub payload: Payload,
+    /// optional markers on the content member (TS `content?:`)
+    pub markers: BTreeSet<String>,
+    pub parents: Vec<TypeExpr>,
+    pub start: usize,
+}
+
+#[derive(Clone, Copy, Debug, PartialEq, Eq, PartialOrd, Ord)]
+pub enum DefKind {
+    Struct,
+    UnitEnum,
+    TaggedEnum,
+    Alias,
+    Const,
+    /// functions, helper enums (Go <Enum>Types string type, Python <Enum>Types), CodableVoid ...
+    Helper,
+}
+
+#[derive(Clone, Debug)]
+pub struct Def {
+    pub kind: DefKind,
+    pub name: String,
+    pub generics: Vec<String>,
+    pub fields: Vec<Field>,
+    pub variants: Vec<Variant>,
+    pub alias_target: Option<TypeExpr>,
+    pub alias_markers: BTreeSet<String>,
+    pub const_type: Option<TypeExpr>,
+    pub const_value: Option<String>,
+    /// every site where a tag / content key is spelled, with a label of the site
+    pub tag_sites: Vec<(String, String)>,
+    pub content_sites: Vec<(String, String)>,
+    pub parents: Vec<TypeExpr>,
+    /// free-form facts (decorators, conformances, ...)
+    pub extra: Vec<(String, String)>,
+    /// problems found inside the definition that the property checks care about
+    pub issues: Vec<String>,
+    pub start: usize,
+    pub end: usize,
+}
+
+impl Def {
+    pub fn new(kind: DefKind, name: &str, start: usize) -> Self {
+        Def {
+            kind,
+            name: name.to_string(),
+            generics: vec![],
+            fields: vec![],
+            variants: vec![],
+            alias_target: None,
+            alias_markers: BTreeSet::new(),
+            const_type: None,
+            const_value: None,
+            tag_sites: vec![],
+            content_sites: vec![],
+            parents: vec![],
+            extra: vec![],
+            issues: vec![],
+            start,
+            end: start,
+        }
+    }
+    pub fn to_json(&self) -> Value {
+        json!({
+            "kind": format!("{:?}", self.kind), "name": self.name, "generics": self.generics,
+            "fields": self.fields.iter().map(|f| json!({"ident": f.ident, "wire_key": f.wire_key, "type": f.ty.show(), "markers": f.markers})).collect::<Vec<_>>(),
+            "variants": self.variants.iter().map(|v| json!({"ident": v.ident, "wire_name": v.wire_name, "payload": match &v.payload {
+                Payload::None => json!(null), Payload::Newtype(t) => json!(t.show()),
+                Payload::Struct(fs) => json!(fs.iter().map(|f| json!({"ident": f.ident, "wire_key": f.wire_key, "type": f.ty.show()})).collect::<Vec<_>>()) }})).collect::<Vec<_>>(),
+            "alias_target": self.alias_target.as_ref().map(|t| t.show()),
+            "const": self.const_value, "tag_sites": self.tag_sites, "content_sites": self.content_sites,
+            "parents": self.parents.iter().map(|t| t.show()).collect::<Vec<_>>(), "issues": self.issues,
+        })
+    }
+}
+
+#[derive(Clone, Debug, Default)]
+pub struct File {
+    pub package: Option<String>,
+    /// (module / path, imported names)
+    pub imports: Vec<(String, Vec<String>)>,
+    pub defs: Vec<Def>,
+    pub comments: Vec<Comment>,
+    pub strings: Vec<(usize, usize)>,
+}
+
+impl File {
+    pub fn from_lexed(l: &Lexed) -> Self {
+        File { comments: l.comments.clone(), strings: l.strings.clone(), ..Default::default() }
+    }
+    pub fn def(&self, name: &str) -> Option<&Def> {
+        self.defs.iter().find(|d| d.name == name)
+    }
+    /// doc text attached to the definition / member starting at `start`: comments that end right before it
+    pub fn principal(&self) -> impl Iterator<Item = &Def> {
+        self.defs.iter().filter(|d| d.kind != DefKind::Helper)
+    }
+}
+
+#[derive(Debug, Clone)]
+pub enum ParseStatus {
+    Parsed(File),
+    /// the language definitely rejects this text
+    IllFormed(String),
+    /// balanced but outside the declaration subset (inconclusive)
+    OutsideSubset(String),
+}
